@@ -64,7 +64,7 @@ BypassWindow(s, a, r) ==
 PlainOnlyNewest(s, a, r) ==
     (a.name = "RotateSigners" /\ ~a.bypass) => (r.ok <=> EpochOfProof(s, a) = s.epoch)
 LatestFlag(s, a, r) ==
-    (a.name = "ValidateProof" /\ r.ok) => (r.ret <=> EpochOfProof(s, a) = s.epoch)
+    (a.name = "ValidateProof" /\ r.ok) => ((r.ret = "true") <=> EpochOfProof(s, a) = s.epoch)
 Frame(s, a, r) == ~r.ok => r.post = s /\ r.ev = <<>> /\ Post(s, a) = s
 
 C08_Window == Step(Window)
